@@ -18,6 +18,7 @@ claimed={
 "C10":("A","exploration","Same simulator with the persist loop live on the real JsonDataStore; crash-and-restart is a scheduling choice at every step (also inside a save); after each restart every job must be terminal, the job set must equal the persisted one, and every finished job must be reported field for field (flags, times, tasks, variables with float bit patterns, user, last error) as the dead world reported it."),
 "C11":("A","exploration","Same simulator; Shutdown (graceful/forced, deadlines on the fake clock) begun in any state with concurrent clients; at the step Shutdown returns: no unfinished job, no executing task, last successfully saved snapshot equals the reported state; graceful lets running jobs finish, forced cancels them; persist liveness evaluated after three persist pauses in settled states."),
 "C12":("A","exploration","Same simulator with the real FileOutputStore; at every SaveToStore step the removed set is checked against retention_count / retention_period / definition removal, the snapshot handed to the store against the API view of the same instant, and the log directory listing before/after."),
+"C13":("A","exploration","Race-detector build of the same simulator in which the simulator's own hand-offs are hidden from the detector, so that two conflicting accesses that are not ordered by prunner's own synchronisation are reported even though the schedule is fully serialised; readers are parked inside IterateJobs/ReadJob callbacks and saves inside log removal so that lock holders overlap; every exported operation is issued concurrently with jobs, timers and the persist loop. Oracle: race report / fatal error / panic involving prunner code, minimised and re-verified in a fresh process."),
 "C15":("A","exploration","Same simulator; list-then-schedule probes executed atomically by the driver in settled states; visibility, ordering and timestamp invariants on every step."),
 "C16":("A","exploration","Same simulator with seeded definition mutations; what the stub is asked to run is compared with the definition installed when the job was accepted; reload steps must not change any job."),
 }
